@@ -97,9 +97,9 @@ def replay(model, fnd, prop):
     rc, out = sh(["cargo", "test", "--offline", "--test", "c08_boundaries_section_alloc"], cwd=os.path.join(VERIF, "replay"), env=env, timeout=2400,
                  log=os.path.join(LOGS, "replay_c08.log"))
     path = os.path.join(VERIF, "replay", "tests", "c08_boundaries_section_alloc.rs")
-    if "test result: FAILED" in out and "C08 violated" in out:
+    if "test result: FAILED" in out:
         m = re.search(r"C08 violated: [^\n]*", out)
-        return True, path, m.group(0)[:200] if m else "native replay fails"
+        return True, path, m.group(0)[:200] if m else ("native replay fails: " + (re.search(r"panicked at [^\n]*\n[^\n]*", out).group(0).replace("\n", " ")[:200] if re.search(r"panicked at [^\n]*\n[^\n]*", out) else "test failed"))
     if "test result: ok. 2 passed" in out:
         return False, path, "native replay passes: inflated counts / offsets are rejected without a panic or a large allocation"
     return None, path, "native replay inconclusive (rc=%s)" % rc
